@@ -1,7 +1,7 @@
 (* C18: numeric builtins (abs ceil floor round roundBank max min toInt toFloat toString finite)
    and the bit operators & | ^ ~, proved of the model in Sem/Builtins.v, Sem/Eval.v, Num/Dec.v.
    Finite decimals denote rationals through dec_val.
-   Not covered (the model answers Unk): exp, ln, log, sqrt. *)
+   Not covered (the model answers Unk): exp, ln, log. *)
 From Coq Require Import String Ascii QArith Qabs Qpower.
 From Formula Require Import Sem.Eval Proofs.NumTextFacts.
 Local Open Scope Z_scope.
@@ -174,7 +174,8 @@ Proof. reflexivity. Qed.
 Lemma ba_finite_num off d :
   builtin_apply off (str "finite") [VNum d] = Ok (VNum (if is_finite d then d else dec_zero)).
 Proof. reflexivity. Qed.
-Lemma ba_toString_num off d : builtin_apply off (str "toString") [VNum d] = Ok (VStr (dec_to_string d)).
+Lemma ba_toString_num off d : builtin_apply off (str "toString") [VNum d] =
+  if is_nan d then Unk else Ok (VStr (dec_to_string d)).
 Proof. reflexivity. Qed.
 Lemma ba_toInt_num off d :
   builtin_apply off (str "toInt") [VNum d] =
@@ -193,11 +194,15 @@ Proof. reflexivity. Qed.
 Lemma ba_toString_str off s : builtin_apply off (str "toString") [VStr s] = Ok (VStr s).
 Proof. reflexivity. Qed.
 
-(* exp, ln, log, sqrt: the model does not describe them *)
+(* exp, ln, log: the model does not describe them *)
 Theorem transcendental_not_modelled off d :
   builtin_apply off (str "exp") [VNum d] = Unk /\ builtin_apply off (str "ln") [VNum d] = Unk /\
-  builtin_apply off (str "log") [VNum d] = Unk /\ builtin_apply off (str "sqrt") [VNum d] = Unk.
+  builtin_apply off (str "log") [VNum d] = Unk.
 Proof. repeat split. Qed.
+
+(* sqrt: the root correctly rounded to 16 digits (Num/Sqrt.v; facts in SqrtFacts.v) *)
+Lemma ba_sqrt off d : builtin_apply off (str "sqrt") [VNum d] = Ok (VNum (Sqrt.dec_sqrt16 d)).
+Proof. reflexivity. Qed.
 
 (* ---------- abs ---------- *)
 
@@ -1283,7 +1288,8 @@ Theorem toString_toFloat off d s : dec_wf d = true ->
   builtin_apply off (str "toString") [VNum d] = Ok (VStr s) ->
   builtin_apply off (str "toFloat") [VStr s] = Ok (VNum d).
 Proof.
-  intros Hwf. rewrite ba_toString_num, ba_toFloat_str. intros H. injection H as H. subst s.
+  intros Hwf. rewrite ba_toString_num, ba_toFloat_str. destruct (is_nan d); [discriminate|].
+  intros H. injection H as H. subst s.
   rewrite toString_roundtrip_text by exact Hwf. reflexivity.
 Qed.
 
@@ -1292,7 +1298,8 @@ Theorem toString_toInt off d s : dec_wf d = true ->
   builtin_apply off (str "toString") [VNum d] = Ok (VStr s) ->
   builtin_apply off (str "toInt") [VStr s] = builtin_apply off (str "toInt") [VNum d].
 Proof.
-  intros Hwf. rewrite ba_toString_num, ba_toInt_str, ba_toInt_num. intros H. injection H as H. subst s.
+  intros Hwf. rewrite ba_toString_num, ba_toInt_str, ba_toInt_num. destruct (is_nan d); [discriminate|].
+  intros H. injection H as H. subst s.
   rewrite toString_roundtrip_text by exact Hwf. reflexivity.
 Qed.
 
